@@ -130,6 +130,32 @@ def run(ctx):
             if not found:
                 ctx.violation({"kind": "proof", "failing": ctx.proof_failure}, no_failing_input=True)
 
+    # ---- whole responses of a generated server: every payload's data bytes are one JSON text, and stay what
+    # they were when the next payload of the same operation (@defer) is produced
+    import json as _json
+    from lib import gensrv
+    from checks import c01
+    gen_cases = 0
+    try:
+        ctx.sync_gosum()
+        srv = gensrv.build_server(ctx, "exec", "base")
+        for prof, n in (("c13", 150 if ctx.tier == "quick" else 1500), ("c01", 150 if ctx.tier == "quick" else 1500)):
+            for l in c01.run_config(ctx, srv, n, ctx.seed, prof):
+                gen_cases += 1
+                try:
+                    r = _json.loads(l)
+                except ValueError:
+                    ctx.violation({"kind": "generated-server-line-not-json", "line": l[:2000], "shape": {"kind": "response-not-json"}})
+                    continue
+                if r.get("crash") and "changed after it was returned" in r["crash"]:
+                    ctx.violation({"kind": "payload-bytes-changed", "what": r["crash"], "query": r["query"], "plan": r.get("plan"),
+                                   "variables": r.get("variables"), "shape": {"kind": "payload-bytes-changed"},
+                                   "replay": "echo '<case json>' | <generated server exec:base> -mode run"})
+                    break
+                branch["generated-server:" + prof + (":incremental" if len(r.get("payloads") or []) > 1 else "")] += 1
+    except RuntimeError as e:
+        ctx.violation({"kind": "generated-server-does-not-build", "config": "exec:base", "detail": str(e)[-3000:],
+                       "shape": {"config": "exec:base", "build": "fail"}})
     ctx.cov.update({
         "evaluations": len(rows),
         "distinct_nontrivial": len(nontriv),
